@@ -10,6 +10,7 @@ import (
 
 	"github.com/nspcc-dev/neo-go/pkg/core/native/nativenames"
 	"github.com/nspcc-dev/neo-go/pkg/crypto/keys"
+	"github.com/nspcc-dev/neo-go/pkg/core/transaction"
 	"github.com/nspcc-dev/neo-go/pkg/neotest"
 	"github.com/nspcc-dev/neo-go/pkg/util"
 	"github.com/nspcc-dev/neo-go/pkg/vm/stackitem"
@@ -44,6 +45,7 @@ type balOp struct {
 	Until   int64    `json:"until,omitempty"`
 	Epoch   int64    `json:"epoch,omitempty"`
 	FromNull bool    `json:"from_null,omitempty"` // pass Null (not an empty byte string) as `from`
+	Scopes  []int    `json:"scopes,omitempty"` // per signer: 0 Global (default), 1 None (fee-only), 2 CalledByEntry; the first signer is the sender
 	Signers []int    `json:"signers"` // indices into users; -1 = Alphabet account, -2 = committee-majority account, -3 = one committee member
 }
 
@@ -199,34 +201,54 @@ func nilIfEmpty(x []byte) any {
 	return x
 }
 
-func (b *balEnv) exec(op balOp) balObs {
+// invoke sends one transaction with the op's signers and witness scopes.
+func (b *balEnv) invoke(op balOp, h util.Uint160, method string, args ...any) Result {
 	sg := b.signerList(op.Signers)
+	if len(op.Scopes) == 0 || len(sg) == 0 {
+		return b.Invoke(sg, h, method, args...)
+	}
+	sc := make([]transaction.WitnessScope, len(sg))
+	for i := range sg {
+		sc[i] = transaction.Global
+		if i < len(op.Scopes) {
+			switch op.Scopes[i] {
+			case 1:
+				sc[i] = transaction.None
+			case 2:
+				sc[i] = transaction.CalledByEntry
+			}
+		}
+	}
+	return b.InvokeScoped(sg, sc, h, method, args...)
+}
+
+func (b *balEnv) exec(op balOp) balObs {
 	var r Result
 	switch op.Kind {
 	case "transfer":
 		if op.FromNull {
-			r = b.Invoke(sg, b.balance, "transfer", nil, op.To, op.Amount, nil)
+			r = b.invoke(op, b.balance, "transfer", nil, op.To, op.Amount, nil)
 		} else {
-			r = b.Invoke(sg, b.balance, "transfer", op.From, op.To, op.Amount, nil)
+			r = b.invoke(op, b.balance, "transfer", op.From, op.To, op.Amount, nil)
 		}
 	case "callerTransfer":
 		if op.FromNull {
-			r = b.Invoke(sg, b.caller, "call", b.balance, "transfer", []any{nil, op.To, op.Amount, nil})
+			r = b.invoke(op, b.caller, "call", b.balance, "transfer", []any{nil, op.To, op.Amount, nil})
 		} else {
-			r = b.Invoke(sg, b.caller, "call", b.balance, "transfer", []any{op.From, op.To, op.Amount, nil})
+			r = b.invoke(op, b.caller, "call", b.balance, "transfer", []any{op.From, op.To, op.Amount, nil})
 		}
 	case "transferX":
-		r = b.Invoke(sg, b.balance, "transferX", op.From, op.To, op.Amount, op.Details)
+		r = b.invoke(op, b.balance, "transferX", op.From, op.To, op.Amount, op.Details)
 	case "mint":
-		r = b.Invoke(sg, b.balance, "mint", op.To, op.Amount, op.Details)
+		r = b.invoke(op, b.balance, "mint", op.To, op.Amount, op.Details)
 	case "burn":
-		r = b.Invoke(sg, b.balance, "burn", op.From, op.Amount, op.Details)
+		r = b.invoke(op, b.balance, "burn", op.From, op.Amount, op.Details)
 	case "lock":
-		r = b.Invoke(sg, b.balance, "lock", op.Details, op.From, op.To, op.Amount, op.Until)
+		r = b.invoke(op, b.balance, "lock", op.Details, op.From, op.To, op.Amount, op.Until)
 	case "newEpoch":
-		r = b.Invoke(sg, b.balance, "newEpoch", op.Epoch)
+		r = b.invoke(op, b.balance, "newEpoch", op.Epoch)
 	case "newEpochNetmap":
-		r = b.Invoke(sg, b.netmap, "newEpoch", op.Epoch)
+		r = b.invoke(op, b.netmap, "newEpoch", op.Epoch)
 		if r.Halt {
 			b.epoch = op.Epoch
 		}
@@ -269,7 +291,10 @@ func (b *balEnv) exec(op balOp) balObs {
 
 // witnessed returns the script hashes for which CheckWitness is true.
 func (b *balEnv) witnessed(op balOp) (hs [][]byte, alpha bool) {
-	for _, i := range op.Signers {
+	for k, i := range op.Signers {
+		if k < len(op.Scopes) && (op.Scopes[k] == 1 || (op.Scopes[k] == 2 && op.Kind == "callerTransfer")) {
+			continue // scope None is no witness anywhere; CalledByEntry is none behind a forwarding contract
+		}
 		if i == -1 {
 			alpha = true
 			hs = append(hs, b.committee.ScriptHash().BytesBE())
@@ -466,10 +491,27 @@ func (g *balGen) next(step int) balOp {
 		default:
 			sg = []int{r.Intn(balNUsers)}
 		}
-		if f == balIdxCall || r.Intn(10) == 0 {
-			return balOp{Kind: "callerTransfer", From: g.addr(f), To: g.addr(t), Amount: am, Signers: sg}
+		var sc []int
+		if f < balNUsers && r.Intn(8) == 0 {
+			// the holder is in the transaction (even as its sender) without a usable witness:
+			// fee-only (scope None), or CalledByEntry behind a forwarding contract
+			o := (f + 1 + r.Intn(balNUsers-1)) % balNUsers
+			switch r.Intn(4) {
+			case 0:
+				sg, sc = []int{f, o}, []int{1, 0}
+			case 1:
+				sg, sc = []int{f}, []int{1}
+			case 2:
+				sg, sc = []int{f, o}, []int{2, 0}
+				return balOp{Kind: "callerTransfer", From: g.addr(f), To: g.addr(t), Amount: am, Signers: sg, Scopes: sc}
+			default:
+				sg, sc = []int{f}, []int{2} // a valid witness for a direct call from the entry script
+			}
 		}
-		return balOp{Kind: "transfer", From: g.addr(f), To: g.addr(t), Amount: am, Signers: sg}
+		if f == balIdxCall || r.Intn(10) == 0 {
+			return balOp{Kind: "callerTransfer", From: g.addr(f), To: g.addr(t), Amount: am, Signers: sg, Scopes: sc}
+		}
+		return balOp{Kind: "transfer", From: g.addr(f), To: g.addr(t), Amount: am, Signers: sg, Scopes: sc}
 	case w < 55:
 		f := g.funded()
 		t := r.Intn(balIdxEmpty)
@@ -600,6 +642,25 @@ func balCorpus(b *balEnv) [][]balOp {
 			{Kind: "lock", From: A, To: L, Amount: n(0), Until: 3, Details: []byte{2}, Signers: al},
 			{Kind: "transfer", From: A, To: B, Amount: n(0), Signers: []int{0}},
 		},
+		{ // the holder takes part in the transaction without a usable witness: sender with scope None (fee-only), CalledByEntry behind a forwarder
+			{Kind: "mint", To: A, Amount: n(1000), Details: []byte{1}, Signers: al},
+			{Kind: "mint", To: B, Amount: n(1000), Details: []byte{1}, Signers: al},
+			{Kind: "transfer", From: A, To: B, Amount: n(990), Signers: []int{0, 1}, Scopes: []int{1, 0}},
+			{Kind: "transfer", From: A, To: B, Amount: n(10), Signers: []int{0}, Scopes: []int{1}},
+			{Kind: "transfer", From: A, To: B, Amount: n(10), Signers: []int{0, 1}, Scopes: []int{1, 2}},
+			{Kind: "callerTransfer", From: A, To: B, Amount: n(10), Signers: []int{0, 1}, Scopes: []int{2, 0}},
+			{Kind: "callerTransfer", From: A, To: B, Amount: n(10), Signers: []int{0}, Scopes: []int{2}},
+			{Kind: "callerTransfer", From: A, To: B, Amount: n(10), Signers: []int{0}, Scopes: []int{1}},
+			{Kind: "transfer", From: A, To: B, Amount: n(10), Signers: []int{1, 0}, Scopes: []int{0, 1}},
+			{Kind: "transfer", From: A, To: B, Amount: n(10), Signers: []int{0}, Scopes: []int{2}},
+			{Kind: "transfer", From: A, To: B, Amount: n(10), Signers: []int{0, 1}, Scopes: []int{0, 1}},
+			{Kind: "transferX", From: A, To: B, Amount: n(10), Details: []byte{7}, Signers: []int{-1, 1}, Scopes: []int{1, 0}},
+			{Kind: "burn", From: A, Amount: n(10), Details: []byte{7}, Signers: []int{-1}, Scopes: []int{1}},
+			{Kind: "lock", From: A, To: L, Amount: n(10), Until: 9, Details: []byte{7}, Signers: []int{-1, 0}, Scopes: []int{1, 0}},
+			{Kind: "newEpoch", Epoch: 5, Signers: []int{-1, 1}, Scopes: []int{1, 0}},
+			{Kind: "mint", To: B, Amount: n(10), Details: []byte{8}, Signers: []int{-1, 1}, Scopes: []int{1, 0}},
+			{Kind: "burn", From: A, Amount: n(10), Details: []byte{7}, Signers: []int{-1}, Scopes: []int{2}},
+		},
 		{ // funds held at contract addresses nobody can witness (the Balance contract itself, Netmap)
 			{Kind: "mint", To: b.balance.BytesBE(), Amount: n(700), Details: []byte{1}, Signers: al},
 			{Kind: "mint", To: b.netmap.BytesBE(), Amount: n(300), Details: []byte{1}, Signers: al},
@@ -660,9 +721,9 @@ func balCorpus(b *balEnv) [][]balOp {
 // balCorpusExtra: number of extra lock addresses corpus history ci needs.
 func balCorpusExtra(ci int) int {
 	switch ci {
-	case 10:
-		return 4
 	case 11:
+		return 4
+	case 12:
 		return 41
 	}
 	// NOTE: keep in step with the position of the two balManyLocks entries in balCorpus
